@@ -156,6 +156,22 @@ def run(ctx):
             ok = any(pol and pnames[1] in k and ("isFloat" in k or "!= 0" in k or "to()" in k or "to" in k) for (k, pol) in fs_)
             R.ob("C14-R5", ok, f.q, "guard:zero divisor", f.site(sw), "a guard on the divisor dominates the division" if ok else "integer division by a zero constant raises SIGFPE inside the translator")
 
+    # ---- R2 (cont.): the conversion every arm relies on, primitive::to<T>() ---------------------------------------
+    tos = [f for f in prog.fns(P + "to", tmpl="pattern")]
+    if len(tos) != 1:
+        raise AnalysisBroken("primitive::to<T> pattern vanished")
+    tf = tos[0]
+    sw = [n for n in tf.walk() if n["k"] == "SwitchStmt"]
+    arms = arms_of(sw[0]) if sw else []
+    tags = [t for t, _ in arms if t in SCALARS]
+    missing = [t for t in SCALARS if t not in tags]
+    R.ob("C14-R2", not missing, tf.q, "to<T>:exhaustive", tf.site(sw[0]) if sw else tf.relfile, "all 11 scalar tags convertible" if not missing else "to<T>() has no arm for %s" % missing)
+    for tag, sts in arms:
+        if tag not in SCALARS:
+            continue
+        mem = [x["n"].split("::")[-1] for st in sts for x in walk(st) if x["k"] == "MemberExpr" and x.get("n", "").split("::")[-1] in SCALARS]
+        R.ob("C14-R2", mem == [tag], tf.q, "to<T>:%s reads member %s" % (tag, mem), tf.site(sts[0]), "reads the member of its own tag" if mem == [tag] else "the %s arm of to<T>() reads union member %s: every conversion of such a value is wrong" % (tag, mem))
+
     # ---- R4 --------------------------------------------------------------------------
     ld = [f for f in prog.fns(P + "load") if "const char *&" in f.d["sig"]]
     if len(ld) != 1:
